@@ -125,12 +125,14 @@ def jMetric (j : Json) : R Metric := do
   | "chebyshev" => return .chebyshev
   | s => throw s!"unsupported metric {s}"
 
-/-- smallest relative gap between a radius and any key it is compared with (near-tie filter) -/
+/-- smallest relative gap between a radius and any key it is compared with (near-tie filter).
+Exact ties are not counted: they are decided identically (strict `<` is false) in exact and in
+floating-point arithmetic (e.g. Chebyshev, where the joint key IS one of the marginal keys). -/
 def minGap (m : Metric) (k : Nat) (JS : Sample) (margs : List Sample) : Rat :=
   let gaps := (List.range JS.length).flatMap (fun i =>
     let eps := radius m k JS (JS.getD i [])
     margs.flatMap (fun S => (keyRow m S (S.getD i [])).map (fun d =>
-      if eps = 0 then 0 else absR (d - eps) / eps)))
+      if eps = 0 then 0 else if d = eps then 1 else absR (d - eps) / eps)))
   gaps.foldl min 1
 
 open Lean in
